@@ -241,6 +241,35 @@ pub fn run(run: &Run) {
             }
         }
     });
+    // ---- long inputs (lengths up to 2000, many resamples): structured scripts -----------------------
+    let longs: Vec<usize> = if run.thorough() { vec![63, 64, 65, 127, 128, 129, 255, 257, 513, 1000, 1024, 1025, 2000] } else { vec![64, 65, 129, 257, 1000, 1025, 2000] };
+    longs.par_iter().for_each(|&n| {
+        let data = labels(n, 0);
+        let d2: Vec<f64> = (0..n).map(|i| 5000.0 + i as f64).collect();
+        for r in [1usize, 3, 200] {
+            if r == 200 && n > 300 {
+                continue;
+            }
+            for pat in 0..4u64 {
+                let ans: Vec<u64> = (0..n * r).map(|t| match pat {
+                    0 => 0,
+                    1 => n as u64 - 1,
+                    2 => (t as u64 * 7 + 3) % n as u64,
+                    _ => (n as u64 - 1) - (t as u64 % n as u64),
+                }).collect();
+                bootstrap_case(run, &data, r, &ans, "long");
+            }
+        }
+        for pat in 0..3u64 {
+            let ans: Vec<u64> = (0..4 * n).map(|t| match pat {
+                0 => (t as u64 * 5 + 1) % n as u64,
+                1 => if t % 2 == 0 { n as u64 - 1 } else { (t as u64 / 2) % n as u64 },
+                _ => (t as u64 * t as u64 + 7) % n as u64,
+            }).collect();
+            shuffle_case(run, &data, &d2, &ans, "long");
+        }
+        run.nontrivial(24);
+    });
     // ---- jackknife ------------------------------------------------------------------------------
     let jmax = run.tier.pick(64usize, 200usize);
     run.bound("jackknife lengths", format!("1..={}", jmax));
